@@ -13,11 +13,16 @@ def run(ctx):
                       "API documentation (spec/control_semantics.json); same for the process-end handler; no undocumented path exists")
     ctx.rule("R09.2", "every CommandState::spawn is preceded on its path by to_spawnable, reset (previous run saved) and exactly one awaited "
                       "SpawnHook::call on the same spawnable with {current: &command_state, previous: previous_run.as_ref()}")
+    ctx.rule("R09.3", "CommandState::reset leaves the state Pending and returns the previous run unchanged (Finished) or as Finished{Continued} (Running)")
     ctx.rule("R09.5", "each public Job method enqueues exactly the documented controls at the documented priority")
     try:
         B = jobtask.Bodies(ctx, "R09.1")
         jobrules.effect_table(ctx, B)
         jobrules.hook_discipline(ctx, B)
+    except Skip:
+        pass
+    try:
+        jobrules.reset_summary(ctx)
     except Skip:
         pass
     try:
